@@ -186,6 +186,12 @@ def sqrt_battery(seed):
                 limbs[4] = M
             ts.append(sum(l << (51 * i) for i, l in enumerate(limbs)) % P)
     for t in ts:
+        cands.append((t, 0))            # v = 0 with structured non-zero u: must give (0, 0)
+        cands.append((0, t))            # u = 0: must give (0, 1)
+    for e_ in (51, 102, 153, 204, 254, 255):
+        cands.append(((1 << e_) % P, 0))
+        cands.append(((P - (1 << e_)) % P, 0))
+    for t in ts:
         for v in (1, 4, rng.randrange(1, P)):
             for u in (t, P - t, t * I % P, (P - t) * I % P, t * Iinv % P, (P - t) * Iinv % P, t * v % P, t * t % P * v % P, t * t % P * v % P * I % P):
                 cands.append((u % P, v))
